@@ -164,7 +164,11 @@ def run_vdriver(cases, tag, keep=None, detail=0, outdir=None, extra=None, case_t
                         raise ToolError("vdriver failed on case %s" % c["id"])
                     tf.write(open(tp1).read())
                 except subprocess.TimeoutExpired:
-                    tf.write(json.dumps({"ev": "case", "id": c["id"], "family": c.get("family", ""), "has_s": False, "opts": c.get("opts", {})}) + "\n")
+                    ce = {"ev": "case", "id": c["id"], "family": c.get("family", ""), "has_s": False, "opts": c.get("opts", {}), "src_sha": "timeout-" + c["id"]}
+                    for k in ("fmt_plan", "fmt_late", "size_class"):
+                        if k in c:
+                            ce[k] = c[k]
+                    tf.write(json.dumps(ce) + "\n")
                     tf.write(json.dumps({"ev": "obs", "id": c["id"], "ret": {"kind": "timeout", "seconds": case_timeout},
                                          "oracle": {"parse": {"ok": True}}, "work": [0, 0, 0, 0], "micros": case_timeout * 1000000}) + "\n")
     log("[drive] %d cases through the real generator in %.1fs (%s)" % (len(cases), time.time() - t0, tag))
@@ -284,6 +288,58 @@ def validate_trace(trace_path, enforce, module="Trace_Gen.tla", cfg="Trace_Gen.c
     log("[tlc] validated %d trace lines in %d chunk(s), %d cases judged under %s, %d failing checks, %.1fs"
         % (res.lines, len(chunks), res.judged, enforce, res.bad, res.wall))
     return res
+
+
+def validate_by_reachability(trace_path, module, cfg, describe):
+    """Trace validation by reachability (silent model steps between recorded milestones).
+    The trace is a concatenation of calls; a call whose events no behaviour of the specification explains is
+    reported, removed, and the rest of the trace is validated again. Returns (n_calls, [rejected...])."""
+    lines = [l for l in open(trace_path).read().splitlines() if l.strip()]
+    calls, cur = [], []
+    for ln in lines:
+        if json.loads(ln).get("ev") == "case" and cur:
+            calls.append(cur)
+            cur = []
+        cur.append(ln)
+    if cur:
+        calls.append(cur)
+    n_calls = len(calls)
+    rejected = []
+    rounds = 0
+    t0 = time.time()
+    while calls and rounds < 80:
+        rounds += 1
+        flat = [ln for c in calls for ln in c]
+        cp = trace_path + ".reach"
+        open(cp, "w").write("\n".join(flat) + "\n")
+        metadir = os.path.join(WORK, "tlc", "reach_%d" % os.getpid())
+        e = {"TRACE": cp, "JAVA_TOOL_OPTIONS": "-Xss1g -Dtlc2.tool.queue.IStateQueue=StateDeque"}
+        rc, out = run(tlc_cmd(module, os.path.join(SPEC, cfg), 1, metadir), cwd=SPEC, env=e, timeout=3200)
+        shutil.rmtree(metadir, ignore_errors=True)
+        summ = None
+        for line in out.splitlines():
+            if line.startswith('"SUMMARY '):
+                summ = json.loads(json.loads(line)[8:])
+        if summ is None:
+            log(out[-4000:])
+            raise ToolError("reachability validation produced no summary (%s)" % module)
+        if summ["maxl"] >= len(flat) + 1:
+            break
+        # the event at index maxl (1-based) could not be consumed: find its call
+        k = summ["maxl"] - 1
+        acc = 0
+        for ci, c in enumerate(calls):
+            if k < acc + len(c):
+                ev = json.loads(c[k - acc])
+                case = json.loads(c[0])
+                rejected.append({"case": case, "events": [json.loads(x) for x in c], "stuck_at": ev, "matched": k - acc, "why": describe(case, [json.loads(x) for x in c], k - acc)})
+                del calls[ci]
+                break
+            acc += len(c)
+        else:
+            raise ToolError("could not locate the rejected event")
+    log("[tlc] reachability validation of %d calls (%d lines) in %d round(s): %d rejected, %.1fs" % (n_calls, len(lines), rounds, len(rejected), time.time() - t0))
+    return n_calls, rejected
 
 
 # ---------------------------------------------------------------- known findings
